@@ -44,6 +44,26 @@ CLAIMS = {
         "Trusts the interpreter as for C09; string truthiness is decided from literal content (an f-string with a non-empty "
         "literal part is truthy).",
         "DESIGN.md §4 C10"),
+    "C12": (
+        "pipeline recovery from the symbolic return term + normal-form comparison of predicates and applied-iff conditions",
+        "Decided: the listing iterators are shown to be the container parser's generator wrapped only in filter stages, and "
+        "the set of (condition, predicate) pairs is shown equal (modulo commutativity, negation normal form, inlined helpers) "
+        "to the specification read off the property. Given that filter() yields exactly the order- and "
+        "multiplicity-preserving matching subsequence, this covers all streams x all filter configurations, including "
+        "tid 0 and empty lists. CLI option wiring is checked as well.",
+        "Trusts filter()/generator-expression semantics; predicates outside the small recognised language give exit 2.",
+        "DESIGN.md §4 C12"),
+    "C13": (
+        "effect enumeration over all facade methods (aliases resolved) + pipeline recovery of traces() with pairing of helper "
+        "classes and post-filters by normalised condition",
+        "Decides the configuration-immutability clause in full (no method other than __init__ rebinds or mutates any "
+        "self.filter_* attribute, so repeating a request cannot see different settings) and the pairing clause: each class "
+        "the tool adds on its own is consumed but post-filtered under exactly the same condition, which contains 'not "
+        "requested by the caller'; helper conditions equal the specification; process filter predicate equals the "
+        "specification. Textual equality with an unfiltered run is not decided.",
+        "Trusts filter() semantics and the interpreter; equality of filtered and unfiltered trace text is argued from "
+        "C04/C05-style locality, not checked.",
+        "DESIGN.md §4 C13"),
     "C17": (
         "registry/code-table resolution (dict literals through functools.partial vs trace.codes) + symbolic template "
         "comparison of twin renderings",
